@@ -179,3 +179,32 @@ def check_pipe(case, obs, tol=None, invalid_is_nothing=True):
     if obs.get("eval_issues"):
         return "eval differs from lazy view: %s" % obs["eval_issues"][:2]
     return None
+
+
+# ---- C06 ---------------------------------------------------------------
+@ref("broadcast_to")
+def _(x, a):
+    if any(e <= 0 for e in a["shape"]):
+        raise Invalid("non-positive extent")
+    return _np(np.broadcast_to, x[0], tuple(a["shape"]))
+
+
+REFS["broadcast_to_i"] = REFS["broadcast_to"]
+
+
+@ref("broadcast_arrays2")
+def _(x, a):
+    return _np(np.broadcast_arrays, x[0], x[1])[a["k"]]
+
+
+@ref("broadcast_arrays3")
+def _(x, a):
+    return _np(np.broadcast_arrays, x[0], x[1], x[2])[a["k"]]
+
+
+def broadcast_shapes(shapes):
+    """np.broadcast_shapes or None when incompatible"""
+    try:
+        return list(np.broadcast_shapes(*[tuple(s) for s in shapes]))
+    except ValueError:
+        return None
